@@ -18,7 +18,7 @@ from harness.lib import coqterm as ct
 from harness.lib.core import VERIF, coqc_file, source_sha
 
 LEVEL = 'proof'
-IMPORTS = 'C19.Model C19.Spec C19.Check'
+IMPORTS = 'Base.PyData Base.Expr Base.Interp C19.Model C19.Spec C19.Categorize C19.Check'
 
 TAGS = {
     1: 'rank_models table differs from the model (membership / values / ranks / order modulo ties / error class)',
@@ -265,10 +265,35 @@ def pool():
         'bounds2': lambda m: set_upper_bounds(set_lower_bounds(m, {'POP_VC': 0.123, 'POP_CL': 0.00125}),
                                               {'POP_CL': 0.0257, 'POP_VC': 125.5, 'IIV_VC': 0.5, 'SIGMA': 2, 'COVAPGR': 1.005}),
     }
+    from pharmpy.modeling import read_model_from_string
+    code = m.code
+    th4 = ("$THETA  (-.99,.1) ; COVAPGR", "$THETA  (-.99,.1) ; COVAPGR\n$THETA  (0,0.5) ; TH_MULT")
+    om1, om2 = "$OMEGA  0.0309626 ; IIV_CL", "$OMEGA  0.031128 ; IIV_VC"
+    # zero-fixed omegas / sigmas, fixed thetas, thetas used only inside an eta- or eps-multiplied term, block omegas
+    C = {
+        'z_etamult': code.replace("VC = TVV*EXP(ETA_VC)", "VC = TVV + THETA(4)*ETA_VC").replace(om2, "$OMEGA  0 FIX ; IIV_VC").replace(*th4),
+        'etamult': code.replace("VC = TVV*EXP(ETA_VC)", "VC = TVV + THETA(4)*ETA_VC").replace(*th4),
+        'z_both': code.replace(om1, "$OMEGA  0 FIX ; IIV_CL").replace(om2, "$OMEGA  0 FIX ; IIV_VC"),
+        'z_cl_fixth': code.replace(om1, "$OMEGA  0 FIX ; IIV_CL").replace("$THETA  (0,1.00916) ; POP_VC", "$THETA  (0,1.00916) FIX ; POP_VC"),
+        'block': code.replace(om1 + "\n" + om2, "$OMEGA BLOCK(2)\n0.03 ; IIV_CL\n0.001 ; IIV_CL_VC\n0.03 ; IIV_VC"),
+        'z_block': code.replace(om1 + "\n" + om2, "$OMEGA BLOCK(2) FIX\n0 ; IIV_CL\n0 ; IIV_CL_VC\n0 ; IIV_VC"),
+        'z_eps': code.replace("Y = F + F*EPS(1)", "Y = F + F*EPS(1) + THETA(4)*EPS(2)").replace(
+            "$SIGMA  0.0130865  ; SIGMA", "$SIGMA  0.0130865  ; SIGMA\n$SIGMA  0 FIX  ; SIGMA_ADD").replace(*th4),
+        'eps_theta': code.replace("Y = F + F*EPS(1)", "Y = F + F*EPS(1)*THETA(4)*EXP(ETA_CL)").replace(*th4),
+        'z_additive_eta': code.replace("CL = TVCL*EXP(ETA_CL)", "CL = TVCL + ETA_CL").replace(om1, "$OMEGA  0 FIX ; IIV_CL"),
+        'shared_theta': code.replace("CL = TVCL*EXP(ETA_CL)", "CL = TVCL").replace(om1, "$OMEGA  0 FIX ; IIV_CL").replace(
+            "VC = TVV*EXP(ETA_VC)", "VC = TVV*THETA(1)*EXP(ETA_VC)"),
+        'fix_theta_prop_eta': code.replace("CL = TVCL*EXP(ETA_CL)", "CL = TVCL*(1 + ETA_CL)").replace(
+            "$THETA  (0,0.00469307) ; POP_CL", "$THETA  (0,0.00469307) FIX ; POP_CL"),
+    }
     with warnings.catch_warnings():
         warnings.simplefilter('ignore')
         for k, f in T.items():
             _POOL[k] = f(m)
+        for k, c in C.items():
+            if c == code:
+                raise Refused('pool variant ' + k + ': pattern not found in the example model code')
+            _POOL[k] = read_model_from_string(c).replace(dataset=m.dataset, datainfo=m.datainfo)
     return _POOL
 
 
@@ -290,19 +315,61 @@ def prelude():
     for key, m in P.items():
         out.append(f'Definition ps_{key} : list param := {params_term(m, NAMES)}.')
         out.append(f'Definition ic_{key} : icobs := {ic_term(key)}.')
+        out.append(f'Definition cat_{key} : catmodel := {cat_term(m, NAMES)}.')
     _PRELUDE.append('\n'.join(out) + '\n')
     return _PRELUDE[0]
 
 
-_CAT = {}
+def cat_term(model, names):
+    """the REAL statements / random variables / parameters of a model as a Categorize.catmodel"""
+    from harness.lib import sym2coq as sc
+    from pharmpy.model import Assignment
+    from pharmpy.modeling import get_individual_parameters, replace_non_random_rvs
+
+    def stmts(ss):
+        out = []
+        for st in ss:
+            if not isinstance(st, Assignment):
+                raise Refused('non-assignment statement outside the ODE system')
+            out.append(ct.pair(names.p(st.symbol.name), sc.expr(st.expression, names)))
+        return ct.lst(out)
+    try:
+        before, after = stmts(model.statements.before_odes), stmts(model.statements.after_odes)
+    except sc.Unconvertible as e:
+        raise Refused('unconvertible expression: ' + str(e))
+    rvs = []
+    for d in model.random_variables:
+        rvs.append(f"(mkRvd {ct.boolean(d.level.upper() in ('IIV', 'IOV'))} {ct.lst([names.p(n) for n in d.names])} "
+                   f"{ct.lst([names.p(n) for n in d.parameter_names])})")
+    zf = [p.name for p in model.parameters if p.init == 0 and p.fix]
+    with warnings.catch_warnings():
+        warnings.simplefilter('ignore')
+        indpars = get_individual_parameters(replace_non_random_rvs(model))
+    ids = lambda l: ct.lst([names.p(str(x)) for x in l])
+    return (f"(mkCat {before}\n  {after}\n  {ct.lst(rvs)} {ids(zf)} {ids(model.parameters.nonfixed.names)} {ids(indpars)} "
+            f"{ids(model.dependent_variables.keys())})")
 
 
-def categorize(key):
-    """(|fixedpars|, |randpars|) of _categorize_parameters — engine part of the 'mixed' BIC (symbolic expansion)."""
-    if key not in _CAT:
-        tf, tr = impl()['results']._categorize_parameters(pool()[key])
-        _CAT[key] = (len(tf), len(tr))
-    return _CAT[key]
+def categorize_batch(ctx):
+    """_categorize_parameters of every pool model: the two returned SETS against Categorize.categorize"""
+    P = pool()
+    prelude()
+    terms, keys = [], []
+    for key, m in P.items():
+        tf, tr = impl()['results']._categorize_parameters(m)
+        ids = lambda l: ct.lst([NAMES.p(str(x)) for x in sorted(map(str, l))])
+        terms.append(f'(mkCcase cat_{key} {ids(tf)} {ids(tr)})')
+        keys.append(key)
+    verdicts = ctx.run_cases('categorize', 'Base.PyData Base.Expr Base.Interp C19.Model C19.Categorize C19.Check', 'ccase', terms,
+                             'cverdict', shard=100, prelude=prelude())
+    bad = [k for k, v in zip(keys, verdicts) if v]
+    for k in bad[:3]:
+        ctx.broken.append('correspondence C19 _categorize_parameters model vs implementation on pool model ' + k)
+    ctx.coverage['categorize_cases'] = {'models': len(keys), 'disagreements': len(bad)}
+    ctx.coverage['evaluations'] += len(keys)
+    ctx.log('_categorize_parameters cases done', ctx.coverage['categorize_cases'])
+
+
 
 
 _IC = {}
@@ -646,7 +713,6 @@ def cand_term(model, res, key, names):
     """export of the REAL objects: Model (parameters, random-variable structure, dataset sizes) + ModelfitResults"""
     import numpy as np
     from pharmpy.modeling import get_ids, get_observations
-    nf, nr = categorize(key)
     tc = res.termination_cause
     term = {None: 'TNone', 'rounding_errors': 'TRounding', 'maxevals_exceeded': 'TMaxevals'}.get(tc, 'TOther')
     rse, grd, cov, est = res.relative_standard_errors, res.gradients, res.covariance_matrix, res.parameter_estimates
@@ -656,7 +722,7 @@ def cand_term(model, res, key, names):
           f"{'None' if rse is None else '(Some ' + series_term(rse, names) + ')'} "
           f"{'None' if grd is None else '(Some ' + series_term(grd, names) + ')'} {cond} "
           f"{'None' if est is None else '(Some ' + ct.lst([ct.pair(names.p(k), ct.q(qf(v))) for k, v in est.items()]) + ')'})")
-    return (f"(mkCand {names.p(model.name)} {oq(res.ofv)} ps_{key} {ct.nat(nf)} {ct.nat(nr)} "
+    return (f"(mkCand {names.p(model.name)} {oq(res.ofv)} ps_{key} (cat_nfix cat_{key}) (cat_nrand cat_{key}) "
             f"{ct.pos(len(get_ids(model)))} {ct.pos(len(get_observations(model)))}\n    {rr})")
 
 
@@ -1182,6 +1248,7 @@ def run(ctx):
         'tool_refusals': sum(1 for i in infos if 'tool_err' in i),
     }
     ctx.coverage['samples'] = [{'spec': s, 'tags': v} for s, v in list(zip(kept, verdicts))[:3]]
+    categorize_batch(ctx)
     penalty_batch(ctx, 150 if ctx.tier == 'quick' else 2000)
     summary_batch(ctx, 120 if ctx.tier == 'quick' else 1500)
     try:
